@@ -295,3 +295,96 @@ mod dispatch {
         assert!((g.is_nan() && want.is_nan()) || got.unwrap() == want.to_bits());
     }
 }
+
+// ---------- C05: the comparison dispatch of integer_branch / float_branch (rule R8) ----------
+// `let condition = match (integer_type, first, second) { 8 arms }` copied verbatim: for every type the arm taken compares
+// (first, second) in order in THAT carrier's domain (so unsigned types compare unsigned). Full operand domain: complete.
+#[cfg(kani)]
+mod branch_condition {
+    use super::*;
+    fn any_cmp() -> IntegerOperation {
+        let k: u8 = kani::any();
+        kani::assume(k >= 5 && k < 8);
+        IntegerOperation::ALL[k as usize]
+    }
+    macro_rules! cond_harness {
+        ($name:ident, $variant:ident, $carrier:ty, $ity:expr) => {
+            #[kani::proof]
+            fn $name() {
+                let a: $carrier = kani::any();
+                let b: $carrier = kani::any();
+                let op = any_cmp();
+                let x = SemValue::Literal(Literal::Integer(IntegerLiteral::$variant(a)));
+                let y = SemValue::Literal(Literal::Integer(IntegerLiteral::$variant(b)));
+                let got = integer_branch_condition($ity, &x, &y, op);
+                core::mem::forget(x); core::mem::forget(y);
+                let (p, q) = (a as i128, b as i128);
+                let want = match op { IntegerOperation::Eq => p == q, IntegerOperation::Lt => p < q, _ => p > q };
+                assert!(got == want);
+            }
+        };
+    }
+    cond_harness!(integer_branch_condition_int8, Int8, i8, IntegerType::Int8);
+    cond_harness!(integer_branch_condition_int16, Int16, i16, IntegerType::Int16);
+    cond_harness!(integer_branch_condition_int32, Int32, i32, IntegerType::Int32);
+    cond_harness!(integer_branch_condition_int64, Int64, i64, IntegerType::Int64);
+    cond_harness!(integer_branch_condition_uint8, UInt8, u8, IntegerType::UInt8);
+    cond_harness!(integer_branch_condition_uint16, UInt16, u16, IntegerType::UInt16);
+    cond_harness!(integer_branch_condition_uint32, UInt32, u32, IntegerType::UInt32);
+    cond_harness!(integer_branch_condition_uint64, UInt64, u64, IntegerType::UInt64);
+
+    fn any_fcmp() -> FloatOperation {
+        let k: u8 = kani::any();
+        kani::assume(k >= 4 && k < 7);
+        FloatOperation::ALL[k as usize]
+    }
+    #[kani::proof]
+    fn float_branch_condition_float32() {
+        let a: u32 = kani::any();
+        let b: u32 = kani::any();
+        let op = any_fcmp();
+        let x = SemValue::Literal(Literal::Float(FloatLiteral::Float32(a)));
+        let y = SemValue::Literal(Literal::Float(FloatLiteral::Float32(b)));
+        let got = float_branch_condition(FloatType::Float32, &x, &y, op);
+        core::mem::forget(x); core::mem::forget(y);
+        let (p, q) = (f32::from_bits(a), f32::from_bits(b));
+        let want = match op { FloatOperation::Eq => p == q, FloatOperation::Lt => p < q, _ => p > q };
+        assert!(got == want);
+    }
+    #[kani::proof]
+    fn float_branch_condition_float64() {
+        let a: u64 = kani::any();
+        let b: u64 = kani::any();
+        let op = any_fcmp();
+        let x = SemValue::Literal(Literal::Float(FloatLiteral::Float64(a)));
+        let y = SemValue::Literal(Literal::Float(FloatLiteral::Float64(b)));
+        let got = float_branch_condition(FloatType::Float64, &x, &y, op);
+        core::mem::forget(x); core::mem::forget(y);
+        let (p, q) = (f64::from_bits(a), f64::from_bits(b));
+        let want = match op { FloatOperation::Eq => p == q, FloatOperation::Lt => p < q, _ => p > q };
+        assert!(got == want);
+    }
+}
+
+#[cfg(kani)]
+mod text2 {
+    use super::*;
+    /// str_split_once kernel, BOUNDED (fixed strings, separator ranges over a fixed set incl. non-ASCII): Some exactly when the
+    /// separator occurs; the halves exclude the separator and their byte lengths add up
+    fn check(s: &str, seps: &[(char, Option<usize>)]) {
+        // seps: (separator, byte offset of its first occurrence or None) -- the expectation table is concrete
+        let u = Utf8String::from(s);
+        let k: usize = kani::any();
+        kani::assume(k < seps.len());
+        let (c, first) = seps[k];
+        let r = str_split_once_kernel(&u, &c);
+        match (&r, first) {
+            | (Some((a, b)), Some(i)) => assert!(a.byte_len() == i && b.byte_len() == s.len() - i - c.len_utf8()),
+            | (None, None) => {}
+            | _ => panic!("wrong branch"),
+        }
+        core::mem::forget(r);
+    }
+    #[kani::proof] #[kani::unwind(13)] fn str_split_once_mixed() { check("a,\u{e9};\u{20ac},", &[(',', Some(1)), (';', Some(4)), ('\u{e9}', Some(2)), ('z', None), ('\u{20ac}', Some(5)), ('a', Some(0))]) }
+    #[kani::proof] #[kani::unwind(13)] fn str_split_once_empty() { check("", &[(',', None), ('a', None)]) }
+}
